@@ -88,9 +88,9 @@ def one(rec, pvl, dialect, cfg, module, wit, via):
         rec.inconc(f"encoder construction failed: {e!r}")
         return
     snaps = [s0]
-    for call in range(2):
+    for call in range(3):
         try:
-            if via == "dumps" and call == 1:
+            if via == "dumps" and call >= 1:
                 t = pvl.dumps(module, encoder=make_encoder(pvl, dialect, cfg))
             else:
                 t = enc.encode(module)
@@ -106,7 +106,7 @@ def one(rec, pvl, dialect, cfg, module, wit, via):
              "duplicate_top_level_names": len({k for k, _ in s0[1]}) != len(s0[1])
              if s0[0] != "dict" else False}
     total_conv = 0
-    for idx in (1, 2):
+    for idx in (1, 2, 3):
         ok, conv = allowed_change(snaps[idx - 1], snaps[idx], dialect)
         total_conv += conv
         if not ok:
@@ -118,12 +118,15 @@ def one(rec, pvl, dialect, cfg, module, wit, via):
             return
     if total_conv:
         rec.count("in_place_group_to_object_conversions", total_conv)
-    if texts[0] != texts[1]:
-        rec.violation(CHECK, dialect, "second-dump-differs",
-                      {**feats, "first": "text" if isinstance(texts[0], str) else texts[0][0],
-                       "second": "text" if isinstance(texts[1], str) else texts[1][0]},
-                      {**wit, "t1": texts[0], "t2": texts[1]},
-                      f"{texts[0]!r:.300} != {texts[1]!r:.300}")
+    for later in (1, 2):
+        if texts[0] != texts[later]:
+            rec.violation(CHECK, dialect, "second-dump-differs",
+                          {**feats, "first": "text" if isinstance(texts[0], str) else texts[0][0],
+                           "second": "text" if isinstance(texts[later], str)
+                           else texts[later][0]},
+                          {**wit, "t1": texts[0], "t2": texts[later], "call": later + 1},
+                          f"{texts[0]!r:.300} != {texts[later]!r:.300}")
+            break
     if isinstance(texts[0], str):
         rec.count("texts_compared")
     else:
